@@ -822,3 +822,14 @@ M('c09i-status-stored-then-overwritten', 'C09', 'break', 'htp/htp_request_generi
 M('c09i-status-through-local-keep', 'C09', 'keep', 'htp/htp_request_generic.c',
   '        if (htp_table_add(connp->in_tx->request_headers, h->name, h) != HTP_OK) {',
   '        htp_status_t rc2 = htp_table_add(connp->in_tx->request_headers, h->name, h);\n        if (rc2 != HTP_OK) {')
+
+# ---------------- C01.n use before NULL test
+M('c01n-null-check-below-use', 'C01', 'break', 'htp/htp_list.c',
+  '    if (l == NULL) return NULL;    \n    if (idx >= l->current_size) return NULL;',
+  '    if (idx >= l->current_size) return NULL;\n    if (l == NULL) return NULL;', 'C01.n')
+M('c01n-destroy-frees-before-test', 'C01', 'break', 'htp/htp_list.c',
+  '    if (l == NULL) return;\n\n    free(l->elements);\n    free(l);',
+  '    free(l->elements);\n    if (l == NULL) return;\n\n    free(l);', 'C01.n')
+M('c01n-retest-after-guarded-use-keep', 'C01', 'keep', 'htp/htp_list.c',
+  '    if (l == NULL) return;\n\n    free(l->elements);\n    free(l);',
+  '    if (l == NULL) return;\n\n    free(l->elements);\n    if (l != NULL) free(l);')
